@@ -106,6 +106,42 @@ def rebuilt_stats(rows):
             "samples": [{"case": rows[0][0][:600], "observed": rows[0][1]}] if rows else []}
 
 
+def rebuilt2_stats(rows):
+    st = rebuilt_stats(rows)
+    feats = {"empty_is_default": 0, "default": 0, "disabled": 0, "oneof": 0, "nested_scope": 0, "presence_rule": 0}
+    nontrivial = set()
+    for case, _, _ in rows:
+        pl = _P.case_payload(case)
+        seen = set()
+
+        def visit(n, top=True):
+            if not isinstance(n, list) or not n:
+                return
+            if n[0] == "prop" and len(n) == 12:
+                if n[9] == "1":
+                    seen.add("empty_is_default")
+                if n[7] != "none":
+                    seen.add("default")
+                if n[10] == "1":
+                    seen.add("disabled")
+                if n[4] or n[5] or n[6]:
+                    seen.add("presence_rule")
+            if n[0] == "oneof":
+                seen.add("oneof")
+            if n[0] == "scope" and not top:
+                seen.add("nested_scope")
+            for c in n:
+                visit(c, False)
+        visit(pl[2])
+        for f in seen:
+            feats[f] += 1
+        if "empty_is_default" in seen:
+            nontrivial.add(hashlib.sha1(re.sub(r"^\(case \S+ ", "", case).encode()).digest())
+    st["distinct_nontrivial"] = len(nontrivial)
+    st["scopes_with_feature"] = feats
+    return st
+
+
 def pairs_direct(case, obs):
     """What the property text says about one observation (no model needed)."""
     kind, expect, flags, notes = _meta(case)
@@ -178,14 +214,16 @@ def register(props):
     _P = props
     props.FAMILY_STATS["c15pairs"] = pairs_stats
     props.FAMILY_STATS["c15rebuilt"] = rebuilt_stats
+    props.FAMILY_STATS["c15rebuilt2"] = rebuilt2_stats
     props.DIRECT[("C15", "c15pairs")] = pairs_direct
     props.DIRECT[("C15", "c15rebuilt")] = rebuilt_direct
+    props.DIRECT[("C15", "c15rebuilt2")] = rebuilt_direct
     props.EXPLAIN[("C15", "c15pairs")] = pairs_explain
     props.KNOWN_PREDICATES["c15_recursive"] = kf_recursive
     props.KNOWN_PREDICATES["c15_empty_range"] = kf_empty_range
     props.PROPS["C15"] = {
         "theory": "Properties/C15.v",
-        "families": ["c15pairs", "c15rebuilt"],
+        "families": ["c15pairs", "c15rebuilt", "c15rebuilt2"],
         "rule": "c15pairs: all ordered pairs of an atom grammar of ~110 schemas (int/float/string/list/map x 8 bound "
                 "configurations = every nil/non-nil combination on both sides, overlapping, disjoint and one empty range; enums "
                 "with/without display names, typed, empty; objects with optional/required/disabled properties, other ids, "
@@ -196,22 +234,42 @@ def register(props):
                 "at a random reachable depth (bound, kind, property added/removed, id, enum value, discriminator, member; both "
                 "directions, the case records whether the property text demands a rejection) and with an unrelated scope; every "
                 "verdict taken three times on freshly built schemas. c15rebuilt: generated describable scopes against "
-                "UnserializeScope(SelfSerialize(s)), both directions. distinct by case text; non-trivial = the pair carries an "
-                "expectation (ok / err) or both sides are composite",
+                "UnserializeScope(SelfSerialize(s)), both directions. c15rebuilt2: the same check on scopes that carry what "
+                "distinguishes a schema from its rebuild and what a description must carry through: half of all properties with "
+                "TreatEmptyAsDefaultValue (not part of a description), defaults, disabled properties with/without reason, "
+                "required_if / required_if_not / conflicts, unenforced ids, string one-ofs over references and inline objects, "
+                "inlined int one-ofs, nested scopes, references in lists and map values (200 / 2000 scopes). distinct by case "
+                "text; non-trivial = the pair carries an expectation (ok / err) or both sides are composite; for c15rebuilt2: "
+                "the scope has a TreatEmptyAsDefaultValue property, i.e. its rebuild is a different schema",
         "assumptions": ["references are linked before use (a schema with an unapplied namespace panics by documented contract; such "
                         "cases are generated, flagged `unlinked`, and compared with the model's Panic)",
                         "Go map iteration order is modelled as the order of the association lists; C15_order_independent quantifies "
                         "over all permutations",
-                        "C15_reflexive_rebuilt is a direct check with the real SDK only (the rebuild model belongs to C09)"],
+                        "C15_reflexive_rebuilt speaks about C09's model of SelfSerialize / UnserializeScope (Schema/Describe.v: "
+                        "describe, rebuild, describable, link_ok, erase), tied to the SDK by the families c09describe and c15rebuilt; its "
+                        "hypotheses are those of C09_fixpoint (describable, pattern sources compile, the scope links) plus those of "
+                        "C15_reflexive (unfolds within n levels, unique keys, no empty range)"],
         "level_text": "Theorems (unbounded, by induction on fuel / on the derivation of the declarative must-reject relation): for "
-                      "every pair whose receiver unfolds within n levels and whose argument unfolds at all, fuel n+1 yields Ok or Err, "
+                      "every pair whose receiver unfolds within n levels and whose argument unfolds at all, fuel n+2 yields Ok or Err, "
                       "never Panic (C15_total); the verdict Ok is invariant under permuting every association list on both sides and "
                       "in both environments (C15_order_independent); every well-formed schema with non-empty ranges is compatible with "
-                      "itself (C15_reflexive); each clause of the property's must-reject list implies `not Ok` for every fuel and Err "
-                      "under the hypotheses of C15_total (C15_rejects_*). Refuted with witnesses: recursion (D03), empty ranges (D05), "
-                      "and the pre-fix behaviours D01, D02, D60.",
+                      "itself (C15_reflexive) AND, when it is a describable scope that links, with the schema UnserializeScope returns "
+                      "for its own description, in both directions, for every fuel >= n (C15_reflexive_rebuilt: rebuild (describe s) = "
+                      "Ok s' /\\ s~s' = s'~s = s'~s' = Ok); this rests on C15_erase_invisible (for EVERY pair of schemas, environments "
+                      "and fuel, erasing what a description cannot carry - TreatEmptyAsDefaultValue - on either side or both leaves the "
+                      "outcome of ValidateCompatibility unchanged, error class, path, Panic and OutOfFuel included), whence "
+                      "C15_rebuilt_interchangeable (the rebuilt scope can replace the original on either side of any check, no "
+                      "well-formedness needed) and C15_wf_erase; each clause of the property's must-reject list implies `not Ok` for "
+                      "every fuel and Err under the hypotheses of C15_total (C15_rejects_*). Refuted with witnesses: recursion (D03), "
+                      "empty ranges (D05), and the pre-fix behaviours D01, D02, D60. Nothing of the property text is left as a test "
+                      "only; partial in the sense of the hypotheses: totality and reflexivity exclude reachable reference cycles (D03) "
+                      "and empty ranges (D05), the rebuilt half additionally needs `describable` (D28, D29, D69 are schemas that can be "
+                      "built but not described).",
         "level_note": "Model = Schema/Compat.v (hand-written from the fourteen ValidateCompatibility implementations after the fixes for "
-                      "D01, D02, D04, D60; falls back to Ops.unser / Ops.compat exactly where the Go code treats the schema as data), "
-                      "tied to the code by differential runs over the pair grid and generated pairs.",
+                      "D01, D02, D04, D60; falls back to Ops.unser / Ops.compat exactly where the Go code treats the schema as data) "
+                      "and, for the rebuilt half, Schema/Describe.v (C09's describe / rebuild); proofs Proofs/Compat*.v, "
+                      "Proofs/C15Rebuilt.v (over Proofs/C09Behaviour.v, C09Behaviour2.v, C09Fixpoint.v, C09Link.v). Tied to the code by "
+                      "differential runs over the pair grid and generated pairs (c15pairs) and by the real SelfSerialize -> "
+                      "UnserializeScope -> ValidateCompatibility in both directions (c15rebuilt, direct check).",
         "design_ref": "DESIGN.md §5 C15",
     }
